@@ -245,6 +245,59 @@ func discoverDuringCall(c *ctx) {
 	c.w.Emit("discover-during-call udp", fmt.Sprintf("call:%s %s %s", map[bool]string{true: "ok", false: "err"}[err1 == nil], found, from), "route/discovery-behind-a-call")
 }
 
+// three discoveries at the same moment from sockets that share nothing (bind port 0): each lasts one timeout, none
+// waits for another - from one client on three goroutines, and from three clients
+func discoverParallel(c *ctx) {
+	for _, mode := range []string{"one-client", "three-clients"} {
+		rs := newUDPResponder("127.0.0.1", func(req []byte) []step {
+			reply := messages.GetDeviceResponse{SerialNumber: 5500001, IpAddress: net.IPv4(127, 0, 0, 1), SubnetMask: net.IPv4(255, 0, 0, 0),
+				Gateway: net.IPv4(127, 0, 0, 1), MacAddress: types.MacAddress{1, 2, 3, 4, 5, 6}, Version: 0x0892, Date: types.ToDate(2024, 1, 1)}
+			b, _ := codec.Marshal(reply)
+			return []step{{5 * time.Millisecond, b}}
+		})
+		ap := netip.MustParseAddrPort(rs.addr())
+		mk := func() uhppote.IUHPPOTE {
+			return uhppote.NewUHPPOTE(types.BindAddrFrom(netip.MustParseAddr("127.0.0.1"), 0), types.BroadcastAddrFrom(ap.Addr(), ap.Port()),
+				types.ListenAddrFrom(netip.MustParseAddr("127.0.0.1"), 60001), T, nil, false)
+		}
+		shared := mk()
+		var wg sync.WaitGroup
+		var mu sync.Mutex
+		found, classes := 0, map[string]int{}
+		for g := 0; g < 3; g++ {
+			u := shared
+			if mode == "three-clients" {
+				u = mk()
+			}
+			wg.Add(1)
+			go func(u uhppote.IUHPPOTE) {
+				defer wg.Done()
+				t0 := time.Now()
+				devs, err := u.GetDevices()
+				el := time.Since(t0)
+				mu.Lock()
+				if err == nil && len(devs) == 1 {
+					found++
+				}
+				classes[timeClass(el)]++
+				mu.Unlock()
+			}(u)
+		}
+		wg.Wait()
+		rs.close()
+		out := "all-found"
+		if found != 3 {
+			out = fmt.Sprintf("found-by-%d-of-3", found)
+		}
+		if classes["=T"] == 3 {
+			out += " all=T"
+		} else {
+			out += fmt.Sprintf(" times=%v", classes)
+		}
+		c.w.Emit("discover-parallel "+mode+" bind=0", out, "rdiscover/parallel")
+	}
+}
+
 func streamRListen(c *ctx) {
 	r := c.r
 	for n := 0; n < 6*c.scale; n++ {
@@ -498,5 +551,6 @@ func streamRDiscover(c *ctx) {
 		_ = want
 	}
 	discoverDuringCall(c)
+	discoverParallel(c)
 	c.w.Notes = append(c.w.Notes, "rdiscover stream: GetDevices through the real driver against a responder that answers with 0..5 datagrams (valid / truncated / over-long with a valid 64-byte prefix / wrong function code / non-BCD date; duplicates of 3 serial numbers) at 3..100 ms or after the window, once 300 malformed datagrams followed by two valid replies; every second client with the debug flag on; the call lasts one timeout")
 }
